@@ -3,6 +3,8 @@
 /repo's history after fix commits were amended: commits are matched by a distinctive subject fragment."""
 import json, subprocess, re
 FRAG = {
+ "F45": "walks over block ids in the routing thread are bounded",
+ "F46": "a block whose header carries id 0 is invalid",
  "F44": "handshake response carrying the node's own key must not authenticate",
  "F43": "transaction builder rejects payments whose total wraps",
  "F38": "fees paid by bound (NFT) transactions must be collected",
